@@ -548,10 +548,18 @@ static void c15(long long seedv) {
     }
     OffsetDateTime eo = OffsetDateTime::forComponents(2019, 3, 10, 2, 30, 15, TimeOffset::forError());
     StrPrint qe; eo.printTo(qe); CNT.add("c15.placeholders_by_component");
-    if (eo.isError() && qe.buf != "<Invalid OffsetDateTime>") { J j; j.str("got", qe.buf); witness("c15:placeholder", "error value does not print its documented placeholder", j); }
+    // an error in ANY component makes the value an error value (documented on isError()): the offset counts as one
+    if (!eo.isError() || qe.buf != "<Invalid OffsetDateTime>") { J j; j.str("type", "OffsetDateTime with the error offset").num("isError", eo.isError()).str("got", qe.buf); witness("c15:placeholder", "error value does not print its documented placeholder", j); }
+    for (const char* t : {"2019-01-01T00:00:00 08:00", "2019-01-01T00:00:00x08:00", "2019-01-01T00:00:00\t08:00"}) {     // full length, but no sign where the offset starts
+      OffsetDateTime po = OffsetDateTime::forDateString(t); StrPrint qp; po.printTo(qp); CNT.add("c15.placeholders_by_component");
+      if (!po.isError() || qp.buf != "<Invalid OffsetDateTime>") { J j; j.str("type", "OffsetDateTime parsed from a string without offset sign").str("text", t).str("got", qp.buf); witness("c15:placeholder", "error value does not print its documented placeholder", j); }
+    }
     ZonedDateTime ez = ZonedDateTime::forComponents(2019, 3, 10, 2, 30, 15, TimeZone::forError());
     StrPrint qz; ez.printTo(qz); CNT.add("c15.placeholders_by_component");
-    if (ez.isError() && qz.buf != "<Invalid ZonedDateTime>") { J j; j.str("got", qz.buf); witness("c15:placeholder", "error value does not print its documented placeholder", j); }
+    if (!ez.isError() || qz.buf != "<Invalid ZonedDateTime>") { J j; j.str("type", "ZonedDateTime in the error zone").num("isError", ez.isError()).str("got", qz.buf); witness("c15:placeholder", "error value does not print its documented placeholder", j); }
+    ZonedDateTime ez2 = ZonedDateTime::forEpochSeconds(600000000, TimeZone::forError());
+    StrPrint qz2; ez2.printTo(qz2); CNT.add("c15.placeholders_by_component");
+    if (!ez2.isError() || qz2.buf != "<Invalid ZonedDateTime>") { J j; j.str("type", "ZonedDateTime of a valid instant in the error zone").num("isError", ez2.isError()).str("got", qz2.buf); witness("c15:placeholder", "error value does not print its documented placeholder", j); }
   }
   // TimePeriod print
   for (int32_t s : {0, 1, 59, 60, 3599, 3600, 86399, 921599, -1, -3661, -921599}) {
